@@ -58,11 +58,13 @@ Proof. induction a; cbn; [destruct b; reflexivity | now f_equal]. Qed.
 Definition fcc_line (d : N) (str tail : text) : text := [32; 70; 67; 67; 32] ++ d :: str ++ d :: tail.
 
 Theorem fcc_parses_to_its_characters d str tail :
-  is_space d = false -> ~ In d str -> mem_c 10 (removelast (fcc_line d str tail)) = false ->
+  is_space d = false -> ~ In d str -> Forall (fun c => c < 256) str -> mem_c 10 (removelast (fcc_line d str tail)) = false ->
   exists st, parse_line (fcc_line d str tail) = Ok (Some st) /\ s_operand st = OPseudo (d :: str ++ [d]) (VStr str) /\
              find_instr FCC_t Tables.instructions = Some (s_instr st) /\ s_label st = [].
 Proof.
-  intros Hd Hnin Hnl. unfold parse_line. rewrite Hnl. unfold fcc_line. cbn [app].
+  intros Hd Hnin Hbyte Hnl. unfold parse_line.
+  assert (Hfb : forallb (fun c => c <? 256) (rev str) = true).
+  { apply forallb_forall. intros c Hc. apply in_rev in Hc. rewrite Forall_forall in Hbyte. apply N.ltb_lt. now apply Hbyte. } rewrite Hnl. unfold fcc_line. cbn [app].
   set (X := d :: str ++ d :: tail).
   assert (Hl : lstrip (32 :: X) = X).
   { unfold lstrip, X. cbn [span]. rewrite Hd. reflexivity. }
@@ -76,7 +78,7 @@ Proof.
   assert (Hfn' : firstn (S (length str)) (str ++ d :: rstrip tail) = str ++ [d]).
   { rewrite firstn_cons in Hfn. now inversion Hfn. }
   cbn. rewrite Hl, Hr, Hff, Hfn'.
-  unfold create_operand, pseudo_operand, create_value, value_of_text. cbn -[rev]. rewrite rev_app_distr. cbn [rev app]. rewrite N.eqb_refl, rev_involutive. cbn.
+  unfold create_operand, pseudo_operand, create_value, value_of_text. cbn -[rev]. rewrite rev_app_distr. cbn [rev app]. rewrite N.eqb_refl, Hfb, rev_involutive. cbn.
   eexists. split; [reflexivity|]. cbn. auto.
 Qed.
 
